@@ -38,6 +38,7 @@ def install():
     sys.path.insert(0, SHIMS)
     logging.disable(logging.CRITICAL)
     _own_sleep()
+    _own_threading()
     import bitcoin.core  # noqa: F401  (must be the shim)
     if not getattr(sys.modules["bitcoin"], "__verif_shim__", False):
         raise RuntimeError("bitcoin package is not the shim")
@@ -58,6 +59,38 @@ def _own_sleep():
             return
         real(n)
     time.sleep = sleep
+
+
+def _own_threading():
+    """threading.Lock / RLock / Event / Condition / Semaphore created BY the code under test
+    (whatever name they are imported under) are scheduler-aware (vnet.Owned*): real primitives
+    outside a scheduled run; inside one, waiting for them is a blocking point of the
+    cooperative scheduler instead of a sleep in the kernel.  Everybody else keeps the real ones."""
+    import threading
+
+    def mine():
+        try:
+            return sys._getframe(2).f_code.co_filename.startswith(MIDDLEWARE)
+        except ValueError:
+            return False
+
+    def factory(real, make):
+        def f(*a, **k):
+            if mine():
+                from . import vnet
+                return make(vnet)(*a, **k)
+            return real(*a, **k)
+        f.__verif_real__ = real
+        return f
+    if getattr(threading.Lock, "__verif_real__", None) is not None:
+        return
+    threading.Lock = factory(threading.Lock, lambda v: (lambda: v.OwnedLock()))
+    threading.RLock = factory(threading.RLock, lambda v: (lambda: v.OwnedLock(reentrant=True)))
+    threading.Event = factory(threading.Event, lambda v: v.OwnedEvent)
+    threading.Condition = factory(threading.Condition, lambda v: v.OwnedCondition)
+    threading.Semaphore = factory(threading.Semaphore, lambda v: v.OwnedSemaphore)
+    threading.BoundedSemaphore = factory(threading.BoundedSemaphore,
+                                         lambda v: (lambda value=1: v.OwnedSemaphore(value, bounded=True)))
 
 
 class Rng:
